@@ -1,0 +1,54 @@
+// Copyright ©2015 The bíogo Authors. All rights reserved.
+// Use of this source code is governed by a BSD-style
+// license that can be found in the LICENSE file.
+
+//go:build verif
+
+// Contracts for the hvc verifier (see /verif/DESIGN.md). This file contains
+// comments only; it adds nothing to the package.
+package csi
+
+// The CSI binning scheme (CSIv1 specification), stated semantically for every
+// geometry (minShift, depth): level l (0 = root .. depth = finest) has 8^l
+// bins numbered from (8^l-1)/7, each covering 2^(minShift+3*(depth-l))
+// positions. depth <= 10 because bin numbers are 32 bit.
+//
+//@ spec func cOff(l uint32) uint32 =
+//@     ite(l == 0, 0, ite(l == 1, 1, ite(l == 2, 9, ite(l == 3, 73, ite(l == 4, 585, ite(l == 5, 4681,
+//@     ite(l == 6, 37449, ite(l == 7, 299593, ite(l == 8, 2396745, ite(l == 9, 19173961, ite(l == 10, 153391689, 1227133513)))))))))))
+//@ spec func cShift(l uint32, minShift uint32, depth uint32) uint32 = minShift + 3*(depth-l)
+//@ spec func cLevel(k uint32) uint32 =
+//@     ite(k < 1, 0, ite(k < 9, 1, ite(k < 73, 2, ite(k < 585, 3, ite(k < 4681, 4, ite(k < 37449, 5,
+//@     ite(k < 299593, 6, ite(k < 2396745, 7, ite(k < 19173961, 8, ite(k < 153391689, 9, 10))))))))))
+// Position p lies in the span of bin k iff p, at the granularity of k's level,
+// is bucket number k - cOff(level). (bucketspan below ties buckets to intervals.)
+//@ spec func cIdx(k uint32) int64 = int64(k - cOff(cLevel(k)))
+//@ spec func cBucket(p int64, k uint32, minShift uint32, depth uint32) int64 = p >> cShift(cLevel(k), minShift, depth)
+//@ opaque spec func cContains(k uint32, beg int64, end int64, minShift uint32, depth uint32) bool =
+//@     cBucket(beg, k, minShift, depth) == cIdx(k) && cBucket(end-1, k, minShift, depth) == cIdx(k)
+//@ opaque spec func cOverlaps(k uint32, beg int64, end int64, minShift uint32, depth uint32) bool =
+//@     cBucket(beg, k, minShift, depth) <= cIdx(k) && cIdx(k) <= cBucket(end-1, k, minShift, depth)
+// A bucket is an interval: p >> sh == j exactly when j*2^sh <= p < (j+1)*2^sh.
+//@ lemma[C16,C04] bv bucketspan: forall p int64, j int64, sh uint32 ::
+//@     0 <= p && sh <= 61 && 0 <= j && j < (int64(1) << (62 - sh)) ==>
+//@     ((p >> sh == j) <==> ((j << sh) <= p && p < (j << sh) + (int64(1) << sh)))
+//@ spec func cGeom(minShift uint32, depth uint32) bool = depth <= 10 && minShift <= 31 && minShift + 3*depth <= 61
+//@ spec func cValid(beg int64, end int64, minShift uint32, depth uint32) bool =
+//@     0 <= beg && beg < end && end <= (int64(1) << (minShift + 3*depth))
+//@ spec func cIsBin(k uint32, depth uint32) bool = cLevel(k) <= depth && k < cOff(depth+1)
+
+//@ func reg2bin
+//@   mode bv
+//@   props C16, C04
+//@   terminates
+//@   requires cGeom(minShift, depth) && cValid(beg, end, minShift, depth)
+//@   loop 0 invariant @shape level <= depth && s == cShift(level, minShift, depth) && t == cOff(level)
+//@   loop 0 invariant @nodeeper forall k uint32 :: cIsBin(k, depth) && cLevel(k) > level ==> !cContains(k, beg, old(end), minShift, depth)
+//@   loop 0 decreases int(level)
+//@   ensures[C16,C04] @isbin cIsBin(result, depth)
+//@   ensures[C16,C04] @contains cContains(result, beg, end, minShift, depth)
+//@   ensures[C16,C04] @deepest forall k uint32 :: cIsBin(k, depth) && cContains(k, beg, end, minShift, depth) ==> cLevel(k) <= cLevel(result)
+
+//@ lemma[C16,C04] bv overlapmember: forall k uint32, b1 int64, e1 int64, b2 int64, e2 int64, minShift uint32, depth uint32 ::
+//@     cGeom(minShift, depth) && cValid(b1, e1, minShift, depth) && cValid(b2, e2, minShift, depth) && b1 < e2 && b2 < e1 &&
+//@     cIsBin(k, depth) && cContains(k, b2, e2, minShift, depth) ==> cOverlaps(k, b1, e1, minShift, depth)
